@@ -160,7 +160,7 @@ def rand_target(rng, s):
     elif kind == "name": auth = "origin.test"
     elif kind == "nameB": auth = "www.example.com"
     elif kind == "lit6p": auth = "[%s]" % ORIG6; explicit = True; port = 8080
-    elif kind == "lit6": auth = "[%s]" % ORIG6; explicit = False; port = 80; s.tags.append("ipv6_noport")
+    elif kind == "lit6": auth = "[%s]" % ORIG6; explicit = False; port = 80
     elif kind == "unknown": auth = "unknown.test"
     elif kind == "nxdomain": auth = "nx.test"
     elif kind == "empty": auth = "empty.test"
@@ -191,7 +191,11 @@ def rand_bad(rng):
     ])
 
 
-def scenario(rng, sid, tier):
+def scenario(rng, sid, tier, clean=False):
+    """clean=True: stay inside the classes for which the pinned proxy is expected to meet the
+    statement (no bracketed IPv6 literal without port, pipelining only towards a literal host with
+    a listening origin, no malformed request after a forwarded one, clients strictly one after the
+    other); clean=False: everything."""
     s = Scn(sid)
     mtu = rng.choice([None, None, None, 100, 41, 1475, 500])
     world(s, rng, mtu=mtu)
@@ -203,51 +207,80 @@ def scenario(rng, sid, tier):
                "dns empty.test err=ok lat=1000 ips="]
     proxy(s)
     nclients = rng.choice([1, 1, 2, 2, 3])
-    # origins: n2:80, n2:8080 (v4 and v6), n3:80/8080 — each either scripted or missing
     resp_pool = [b"HTTP/1.1 200 OK\r\ncontent-length: 3\r\n\r\nabc", b"HTTP/1.1 404 Not Found\r\n\r\n", b"x", bytes(range(256)),
                  b"HTTP/1.1 200 OK\r\n\r\n" + b"0123456789" * 30]
-    T = 0
     sess_len = rng.choice([200, 400, 1000]) * MS
+    listening = set()
+    # origins (ports below 1024 cannot be bound in the simulation: a default-port origin never exists);
+    # each accepts up to `nclients` connections, one after the other, each with its own answer script
     for (node, ip, fam) in (("n2", ORIG4, "v4"), ("n2", ORIG6, "v6"), ("n3", ORIGB4, "v4")):
-        for port in (80, 8080):
-            if port == 80 and True:
-                # ports below 1024 cannot be bound in the simulation: default-port origins never exist
-                continue
-            if rng.random() < 0.2: continue
-            ep = "%s:%d" % (ip, port) if fam == "v4" else "[%s]:%d" % (ip, port)
-            nresp = rng.choice([0, 1, 1, 2, 3])
-            respond = sorted((rng.randrange(1, sess_len * nclients // MS) * MS + rng.choice([0, 0, 500]), rng.choice(resp_pool)) for _ in range(nresp))
-            origin(s, node, ep, accept_at=rng.choice([None, None, None, 30 * MS]), respond=respond,
-                   respond_on_accept=rng.choice([None, None, b"HTTP/1.1 100 Continue\r\n\r\n"]),
-                   close_at=rng.choice([None, None, sess_len // 2]), close_on_eof=rng.random() < 0.8, family=fam)
-    overlap = False
+        if rng.random() < 0.2: continue
+        ep = "%s:8080" % ip if fam == "v4" else "[%s]:8080" % ip
+        listening.add(ip)
+        a = s.acc()
+        s.do("top", "%s.new %s" % (a, node)); s.do("top", "%s.open %s" % (a, fam))
+        s.do("top", "%s.bind %s" % (a, ep)); s.do("top", "%s.listen" % a)
+        ctx = "top"; late = rng.choice([None, None, None, 30 * MS])
+        for j in range(nclients):
+            sk = s.sock(); h_acc = s.h(); h_rd = s.h()
+            s.do("top", "%s.new %s" % (sk, node))
+            if ctx == "top" and late is not None: s.at(late, ["%s.accept %s %s" % (a, sk, h_acc)])
+            else: s.do(ctx, "%s.accept %s %s" % (a, sk, h_acc))
+            s.do(h_acc, "%s.read_loop %s cap=%d" % (sk, h_rd, rng.choice([48, 48, 7])))
+            c2 = h_acc
+            if rng.random() < 0.3: s.do(h_acc, "%s.send %s data=%s" % (sk, s.h(), hx(b"HTTP/1.1 100 Continue\r\n\r\n")))
+            else:
+                pass
+            # answers: chained, each after a delay counted from the accept / the previous answer
+            for _ in range(rng.choice([0, 1, 1, 2, 3])):
+                hn = s.h()
+                c2 = s.after(c2, rng.choice([0, 1000, 3 * MS, 40 * MS, 100 * MS]), ["%s.send %s data=%s" % (sk, hn, hx(rng.choice(resp_pool)))])
+                c2 = hn
+            if rng.random() < 0.25: s.after(h_acc, rng.choice([50, 150]) * MS, ["%s.close" % sk])
+            if rng.random() < 0.8: s.do(h_rd, "%s.close" % sk)
+            ctx = h_acc
+    T = 0
     for c in range(nclients):
         start = T + rng.choice([0, 1, 10]) * MS
         nreq = rng.choice([1, 1, 2, 3])
         stream = b""
-        first_kind = None
+        first_t = None; forwarded = 0; ok_early = False
         for q in range(nreq):
-            if rng.random() < 0.12:
-                stream += rand_bad(rng); s.tags.append("malformed"); continue
-            if q > 0 and rng.random() < 0.7 and first_kind is not None:
+            if rng.random() < 0.12 and not (clean and forwarded > 0):
+                stream += rand_bad(rng); s.tags.append("malformed")
+                if forwarded > 0: s.tags.append("malformed_after_valid")
+                if clean: break
+                continue
+            if forwarded > 0 and (clean or rng.random() < 0.8):
                 t = first_t      # same origin again
             else:
-                t, kind = rand_target(rng, s)
-                if first_kind is None: first_kind, first_t = kind, t
+                while True:
+                    t, kind = rand_target(rng, s)
+                    if not (clean and kind == "lit6"): break
+                if kind == "lit6": s.tags.append("ipv6_noport")
+                if first_t is None:
+                    first_t = t
+                    # a second request may arrive while the first connect is in progress: fine when
+                    # the host is a literal and somebody listens there
+                    ok_early = (kind == "lit4" and ORIG4 in listening and b":8080" in t) or (kind == "lit6p" and ORIG6 in listening)
+                elif t.split(b"/")[2] != first_t.split(b"/")[2]: s.tags.append("multi_origin")
+            if forwarded >= 1 and not ok_early:
+                if clean: break
+                s.tags.append("pipelined_early")
             auth = t[7:].split(b"/")[0]
             stream += request(rng.choice([b"GET", b"POST", b"HEAD", b"get"]), t, rand_headers(rng, auth))
-        if nreq > 1: s.tags.append("pipelined")
+            forwarded += 1
+        if forwarded > 1: s.tags.append("pipelined")
         if rng.random() < 0.15: stream = stream[:rng.randrange(1, len(stream))]; s.tags.append("truncated")
         pieces = cut(rng, stream, rng.choice([1, 1, 2, 3, 6]))
         gaps = [rng.choice([0, 0, 0, 1000, 2 * lat, 3 * MS, 60 * MS]) for _ in pieces]
-        if len(pieces) == 1 and nreq > 1: s.tags.append("pipelined_one_piece")
         close_at = rng.choice([None, None, start + sess_len // 2, start + sess_len - 10 * MS])
+        if clean and close_at is None and c + 1 < nclients: close_at = start + sess_len // 2
         client(s, start, pieces, gaps, close_at=close_at, close_on_eof=rng.random() < 0.9,
-               family=rng.choice(["v4", "v4", "v6"]))
-        nxt = rng.choice([sess_len, sess_len, sess_len // 2, 20 * MS])
-        if nxt < sess_len: overlap = True
+               family=rng.choice(["v4", "v4", "v4", "v6"]))
+        nxt = sess_len if clean else rng.choice([sess_len, sess_len, sess_len // 2, 20 * MS])
+        if nxt < sess_len and c + 1 < nclients: s.tags.append("overlap")
         T = start + nxt
-    if overlap and nclients > 1: s.tags.append("overlap")
     r = rng.random()
     if r < 0.25: s.at(rng.randrange(0, max(1, T // MS)) * MS, ["x0.stop"]); s.tags.append("stop")
     elif r < 0.3: s.do("top", "x0.stop"); s.tags.append("stop")
@@ -258,5 +291,5 @@ def scenario(rng, sid, tier):
 
 def generate(seed, tier):
     rng = random.Random(seed * 1000003 % (2**31) + 18)
-    n = 200 if tier == "quick" else 6000
-    return [scenario(rng, "g%d" % i, tier) for i in range(n)]
+    n = 240 if tier == "quick" else 6000
+    return [scenario(rng, "g%d" % i, tier, clean=(i % 2 == 0)) for i in range(n)]
